@@ -171,7 +171,6 @@ impl AccessControlBuiltin {
 
       // General case
       topic_name => {
-        let grant = self.get_grant(&permissions_handle)?;
         let domain_rule = self.get_domain_rule(&permissions_handle)?;
 
         let requested_access_is_unprotected = domain_rule
@@ -188,6 +187,14 @@ impl AccessControlBuiltin {
             },
           )
           .is_some_and(bool::not);
+
+        // Access that the governance document leaves unprotected does not depend on the
+        // permissions document (which may have no currently valid grant for the participant).
+        if requested_access_is_unprotected {
+          return Ok(true);
+        }
+
+        let grant = self.get_grant(&permissions_handle)?;
 
         let participant_has_write_access = grant
           .check_action(
@@ -215,9 +222,46 @@ impl AccessControlBuiltin {
           Entity::Topic => participant_has_write_access || participant_has_read_access,
         };
 
-        let check_passed = requested_access_is_unprotected || participant_has_requested_access;
-        Ok(check_passed)
+        Ok(participant_has_requested_access)
       }
     }
+  }
+}
+
+// Verification hooks: re-exports of the (module-private) document types and a way to install
+// already parsed documents under a fresh PermissionsHandle, so that the in-crate drivers can
+// evaluate the real decision functions on generated documents.
+#[cfg(rustdds_verif)]
+pub(crate) mod verif {
+  pub(crate) use super::{
+    domain_governance_document::{
+      BasicProtectionKind, DomainGovernanceDocument, DomainRule, ProtectionKind, TopicRule,
+    },
+    domain_participant_permissions_document::{
+      Action, AllowOrDeny, Criterion, DomainIds, DomainParticipantPermissions, Grant, Rule,
+    },
+    s_mime_config_parser::SignedDocument,
+  };
+  pub(crate) use crate::security::certificate::{Certificate, DistinguishedName};
+}
+
+#[cfg(rustdds_verif)]
+impl AccessControlBuiltin {
+  pub(crate) fn verif_install(
+    &mut self,
+    subject_name: DistinguishedName,
+    permissions: Option<DomainParticipantPermissions>,
+    domain_rule: Option<DomainRule>,
+  ) -> PermissionsHandle {
+    let permissions_handle = self.generate_permissions_handle();
+    if let Some(domain_rule) = domain_rule {
+      self.domain_rules.insert(permissions_handle, domain_rule);
+    }
+    if let Some(permissions) = permissions {
+      self
+        .domain_participant_permissions
+        .insert(permissions_handle, (subject_name, permissions));
+    }
+    permissions_handle
   }
 }
